@@ -1032,7 +1032,7 @@ func (w *walker) subscriptionCall(call *ast.CallExpr, name string, fr frame) {
 	if sel == nil {
 		return
 	}
-	w.node(sel.X, fr)
+	// sel.X was already walked by call()
 	recv := w.eval(sel.X, fr)
 	op := &SubOp{Rec: w.rec(call, fr), Call: call, Method: name, Recv: recv, RecvExpr: sel.X}
 	switch name {
